@@ -13,6 +13,7 @@ from .common import ROOT, log
 
 import world_gen as wg
 import store_gen as sg
+import join_gen as jg
 
 # ------------------------------------------------------------------ property table
 
@@ -59,6 +60,39 @@ PROPS = {
         theorems=["C17_index_bounded", "C17_faithful_refines_spec", "C17_refuted_unfixed"],
         required="spec",
         nontrivial="history reuses an index or contains a failing batch deletion",
+    ),
+    "C06": dict(
+        domain="world", module="Props.C06",
+        theorems=["C06_ascending_once", "C06_exactly_the_intersection", "C06_membership_per_member_kind",
+                  "C06_join_visits_intersection", "C06_early_stop_is_a_prefix", "C06_optional_reported_correctly",
+                  "C06_lending_same_indices", "C06_lending_lookup_by_entity", "C06_lending_lookup_by_index",
+                  "C06_any_storage_kind_joins_like_the_map", "C06_same_join_under_both_allocators"],
+        required="spec",
+        nontrivial="history contains a join of at least two members that yields at least one item, over indices "
+                   "on both sides of a layer boundary (64 / 4096) or with a negated / optional member",
+    ),
+    "C07": dict(
+        domain="world", module="Props.C07",
+        theorems=["C07_parallel_is_sequential", "C07_pool_size_irrelevant", "C07_each_index_exactly_once",
+                  "C07_any_storage_kind"],
+        required="spec",
+        nontrivial="history contains a parallel join on a pool of at least two threads that yields at least two items",
+    ),
+    "C13": dict(
+        domain="world", module="Props.C13",
+        theorems=["C13_visits_the_storages_members", "C13_item_reads_its_own_index", "C13_direct_read_is_the_same",
+                  "C13_other_entity_lookup", "C13_membership_unchanged", "C13_any_storage_kind"],
+        required="spec",
+        nontrivial="history contains a join over a restricted storage with at least one item and one other-entity lookup",
+    ),
+    "C16": dict(
+        domain="world", module="Props.C16",
+        theorems=["C16_accumulates_in_arrival_order", "C16_collect", "C16_nothing_for_others",
+                  "C16_every_mentioned_entity", "C16_extend_is_append", "C16_add_is_extend_by_one", "C16_ops_collect",
+                  "C16_ops_extend", "C16_ops_add", "C16_ops_other_slots", "C16_member_of_a_join", "C16_each_index_once",
+                  "C16_item_is_the_accumulated_amount", "C16_consumed_by_value"],
+        required="spec",
+        nontrivial="history contains a change set with a repeated entity and a join over it that yields at least one item",
     ),
     "C18": dict(
         domain="derive", module="Props.C18",
@@ -210,16 +244,36 @@ def proof_obligations(pid, tier):
 # ------------------------------------------------------------------ world domain execution
 
 def run_world(hists, fixed=True, release=False):
-    """execute histories on the implementation and on the model; returns result dicts"""
+    """execute histories on the implementation and on the model; returns result dicts.
+    Large batches are split into shards that run concurrently (order of results = order of hists)."""
     exe = common.build_harness(release)
     drv = common.build_ocaml()
     d = common.run_dir()
-    hf = os.path.join(d, "hist.txt")
-    tf = os.path.join(d, "impl.txt")
+    nshards = max(1, min(NSHARDS, len(hists) // 24))
+    if nshards == 1:
+        return run_world_shard(exe, drv, d, 0, hists, fixed)
+    import concurrent.futures
+    # round-robin so that the expensive histories spread over the shards
+    parts = [hists[k::nshards] for k in range(nshards)]
+    with concurrent.futures.ThreadPoolExecutor(nshards) as ex:
+        outs = list(ex.map(lambda kp: run_world_shard(exe, drv, d, kp[0], kp[1], fixed), enumerate(parts)))
+    res = [None] * len(hists)
+    for k, part in enumerate(outs):
+        for j, r in enumerate(part):
+            res[k + j * nshards] = r
+    return res
+
+
+NSHARDS = int(os.environ.get("SV_SHARDS", "12"))
+
+
+def run_world_shard(exe, drv, d, shard, hists, fixed):
+    hf = os.path.join(d, "hist%d.txt" % shard)
+    tf = os.path.join(d, "impl%d.txt" % shard)
     with open(hf, "w") as f:
         for h in hists:
             f.write(wg.encode(h) + "\n")
-    impl_lines = run_harness(exe, "world", hf, hists)
+    impl_lines = run_harness(exe, "world", hf, hists, shard)
     with open(tf, "w") as f:
         f.write("\n".join(impl_lines) + "\n")
     p = subprocess.run([drv, "world", "1" if fixed else "0", hf, tf], stdout=subprocess.PIPE, text=True, timeout=7200,
@@ -246,7 +300,7 @@ def parse_tr(line):
     return [[int(x) for x in part.split()] for part in line.split("|")]
 
 
-def run_harness(exe, domain, hf, hists):
+def run_harness(exe, domain, hf, hists, shard=0):
     p = subprocess.run([exe, domain, hf], stdout=subprocess.PIPE, text=True, timeout=7200)
     if p.returncode == 0:
         lines = p.stdout.rstrip("\n").split("\n") if hists else []
@@ -256,7 +310,7 @@ def run_harness(exe, domain, hf, hists):
     log("harness crashed (rc=%s); re-running one history at a time" % p.returncode)
     out = []
     d = common.run_dir()
-    one = os.path.join(d, "one.txt")
+    one = os.path.join(d, "one%d.txt" % shard)
     for h in hists:
         with open(one, "w") as f:
             f.write(wg.encode(h) + "\n")
@@ -322,7 +376,67 @@ def world_violation(pid, r):
     if pid == "C04":
         if code == 1 and is_store and not stale:
             return "a storage operation returned something else than the plain map (op %d: %s)" % (pos, wg.NAMES.get(op, op))
+    if pid in JOIN_PROPS:
+        d = join_direct(pid, r)
+        if d:
+            return d
+        if code in (1, 4) and op is not None and (op in JOIN_OBS):
+            what = {"C06": "a join did not yield exactly the intersection in index order with each index's own "
+                           "components, or a mutation made through an item is not what is visible afterwards",
+                    "C07": "a parallel join did not deliver the items of the sequential join exactly once, or its "
+                           "mutations are not what is visible afterwards",
+                    "C13": "a restricted storage did not expose the storage's own components / membership / lookup "
+                           "rules, or modification events differ from the items fetched mutably",
+                    "C16": "a change set does not hold the per-entity combination of its amounts in arrival order, "
+                           "or a join did not pair / consume each accumulated amount exactly once"}[pid]
+            return "%s (op %d: %s)" % (what, pos, wg.NAMES.get(op, op))
     return None
+
+
+JOIN_PROPS = ("C06", "C07", "C13", "C16")
+JOIN_OBS = set([80, 81, 82, 83, 84, 85, 86, sg.GET, sg.CONT, sg.MSK, sg.CNT, sg.EMP, sg.RREAD, wg.JE, sg.DRN, sg.REM, sg.GETM])
+
+
+def join_rows(o, nm):
+    """rows [(idx, raw item ints)] of a join output entry [21, n, ...]; None if it is not one"""
+    if not o or o[0] != 21:
+        return None
+    return o
+
+
+def join_direct(pid, r):
+    """checks on the implementation's transcript alone (no model): available when no lazy closure shifts the
+    positions.  C06/C13/C16: a sequential / lending join lists strictly ascending indices.  C07: a parallel join
+    that directly follows the same read-only join run sequentially delivers the same rows."""
+    if any(c == sg.LEXEC for c, _ in r["hist"]):
+        return None
+    prev = None
+    for k, (c, p) in enumerate(r["hist"]):
+        if k >= len(r["impl"]):
+            break
+        o = r["impl"][k]
+        if c == jg.JOIN and o and o[0] == 21 and len(p) >= 3:
+            if pid == "C07" and p[0] == 2 and prev is not None and prev[0] == p[2:] and prev[1] != o:
+                return "a parallel join delivered other items than the same join run sequentially just before (op %d)" % k
+            prev = (p[2:], o) if (p[0] == 0 and p[1] == -1 and members_read_only(p)) else None
+        else:
+            prev = None
+    return None
+
+
+def members_read_only(p):
+    try:
+        i = 3
+        for _ in range(p[2]):
+            while p[i] == 5:
+                i += 1
+            c = p[i]
+            if c in (1, 7, 8) or (c == 6 and p[i + 2] != 0):
+                return False
+            i = jg.parse_member(p, i)[1]
+        return True
+    except (IndexError, ValueError, KeyError):
+        return False
 
 
 def nontrivial_world(pid, r):
@@ -364,6 +478,25 @@ def nontrivial_world(pid, r):
         nested = any(c == sg.LEXEC and sg.LEXEC in p[::1] for c, p in r["hist"])
         lazy_ops = sum(1 for c, _ in r["hist"] if c in (sg.LINS, sg.LINSALL, sg.LREM, sg.LEXEC, wg.LC))
         return nested and lazy_ops >= 3 and bool(codes & {wg.D, wg.ED, wg.DM})
+    if pid in JOIN_PROPS:
+        if any(c == sg.LEXEC for c, _ in r["hist"]):
+            return False
+        for k, (c, p) in enumerate(r["hist"]):
+            if c != jg.JOIN or k >= len(r["impl"]) or len(p) < 3:
+                continue
+            o = r["impl"][k]
+            if not o or o[0] != 21 or o[1] < 1:
+                continue
+            txt = jg.pretty_join(p)
+            if pid == "C06" and p[2] >= 2 and ("!" in txt or "maybe" in txt or o[1] >= 2):
+                return True
+            if pid == "C07" and p[0] == 2 and p[1] >= 2 and o[1] >= 2:
+                return True
+            if pid == "C13" and "restrict" in txt and "others=[]" not in txt:
+                return True
+            if pid == "C16" and "cs" in txt:
+                return True
+        return False
     if pid == "C05":
         has_comp = any(c in (wg.C, wg.CX, wg.EB) and len(p) >= 3 for c, p in r["hist"]) or sg.INS in codes
         return reuse and has_comp and bool(codes & {wg.D, wg.DM, wg.ED, wg.DA})
@@ -397,6 +530,18 @@ def gen_store(pid, tier, seed, scale, rng, hists, stats):
         for _ in range((900 if q else 9000) * scale):
             hists.append(sg.lazy_history(rng, rng.randint(8, 45 if q else 120)))
             stats["lazy histories"] += 1
+    if pid in JOIN_PROPS:
+        foci = {"C06": [("join", 5), ("restrict", 1), ("changeset", 1), ("par", 1)],
+                "C07": [("par", 1)], "C13": [("restrict", 1)], "C16": [("changeset", 1)]}[pid]
+        total = (360 if q else 5000) * scale
+        wsum = sum(w for _, w in foci)
+        for focus, w in foci:
+            for _ in range(total * w // wsum):
+                h = jg.join_history(rng, rng.randint(6, 30 if q else 80), focus)
+                if pid == "C07":
+                    h = with_seq_twins(h)
+                hists.append(h)
+                stats["%s-focused join histories" % focus] += 1
     if pid == "C04":
         for sid in range(16):
             for _ in range((40 if q else 400) * scale):
@@ -416,7 +561,17 @@ def gen_store(pid, tier, seed, scale, rng, hists, stats):
 
 FAR_OK = True
 
-STORE_PROPS = ("C03", "C04", "C05", "C08", "C09", "C12")
+STORE_PROPS = ("C03", "C04", "C05", "C08", "C09", "C12") + JOIN_PROPS
+
+
+def with_seq_twins(h):
+    """before every parallel join over read-only members, the same join run sequentially (C07's direct check)"""
+    out = []
+    for c, p in h:
+        if c == jg.JOIN and len(p) >= 3 and p[0] == 2 and members_read_only(p):
+            out.append((c, [0, -1] + list(p[2:])))
+        out.append((c, p))
+    return out
 
 
 def gen_world(pid, tier, seed, scale=1):
@@ -545,7 +700,11 @@ def check_world(pid, tier, seed):
              "C12": ("RegReader", "ReadEvents", "SetEmission", "Insert", "GetMut", "Remove", "Entry", "Drain", "Delete",
                      "EDelete", "Maintain", "Create", "GetMutOrDefault"),
              "C09": ("LazyInsert", "LazyInsertAll", "LazyRemove", "LazyExec", "LazyCreate", "Maintain", "Delete", "EDelete"),
-             "C04": ("Insert", "Get", "GetMut", "Remove", "Entry", "Drain", "Clear", "Slice", "Mask", "Count")}
+             "C04": ("Insert", "Get", "GetMut", "Remove", "Entry", "Drain", "Clear", "Slice", "Mask", "Count"),
+             "C06": ("Join", "Insert", "Get", "Mask", "DeleteMany", "Maintain", "CreateIter"),
+             "C07": ("Join", "Insert", "Get", "Mask", "DeleteMany", "CreateIter"),
+             "C13": ("Join", "Insert", "Get", "Mask", "RegReader", "ReadEvents", "DeleteMany"),
+             "C16": ("Join", "CsAdd", "CsCollect", "CsExtend", "CsClear", "CsDump", "Insert")}
     for need in needs.get(pid, ("Create", "DeleteMany", "EDelete", "Maintain", "ProbeAll", "ECreate")):
         if ophist[need] == 0:
             proof["failures"].append("generator bucket empty: " + need)
